@@ -14,6 +14,9 @@ Correspondence (three layers, all on the same generated proper MDPs):
     arithmetic are covered by layer 1 only (coverage.replay_skipped_long).
  3. PREDICTION  the mirror of _check_solved (cs_loop) predicts flag and closed list of every
     _check_solved call from the machine state.
+Multi-step scenarios: ONE planner object plans on MDP A, on a perturbed B with the same labels, and on A
+again (state kept on the object across plan_on calls must not leak); each step is judged by all layers
+with its own MDP.
 Violation search: exact Python oracle (Fractions) for each clause of the property, including the exact
 evaluation of the RETURNED policy (res.policy) from the initial distribution.
 """
@@ -179,6 +182,75 @@ def gen_case(rng, tier):
     return {"mdp": mc, "heuristic": [str(x) for x in h], "kind": kind, "margin": rng.choice(MARGINS),
             "seed": rng.randint(0, 4 if tier == "quick" else 29), "randomize": rng.random() < .5,
             "iterations": 4000, "max_log": 600 if tier == "quick" else 1500}
+
+
+def perturb(rng, mc):
+    """same labels, action sets, absorbing flags and successor SETS (so properness is preserved);
+    probabilities, rewards and (sometimes) the initial distribution re-drawn"""
+    import copy
+    m2 = copy.deepcopy(mc)
+    nonpos = F(mc["gamma"]) == 1
+    m2["reward"] = {}
+    for key, row in mc["trans"].items():
+        s, a = map(int, key.split(","))
+        pos = [ns for ns, pr in row if F(pr) != 0]
+        if mc["absorbing"][s]:
+            newrow = [list(x) for x in row]
+        else:
+            ps = gen_mdp._split_prob(rng, len(pos))
+            it = iter(ps)
+            newrow = [[ns, (str(next(it)) if F(pr) != 0 else "0")] for ns, pr in row]
+        m2["trans"][key] = newrow
+        for ns in pos:
+            if rng.random() < .8:
+                r = F(rng.randint(-16, 0 if nonpos else 16), 4) if rng.random() < .3 else F(rng.randint(-4, 0 if nonpos else 4))
+                if r != 0:
+                    m2["reward"]["%d,%d,%d" % (s, a, ns)] = str(r)
+    if rng.random() < .5:
+        pos = [s for s, pr in mc["init"] if F(pr) != 0]
+        it = iter(gen_mdp._split_prob(rng, len(pos)))
+        m2["init"] = [[s, (str(next(it)) if F(pr) != 0 else "0")] for s, pr in mc["init"]]
+    return m2
+
+
+def gen_chain(rng, tier):
+    """ONE planner object plans on A, on a perturbed B with the same labels, then on A again;
+    the heuristic is admissible for both (constant bound, or pointwise max of the optima + slack)"""
+    gamma = "1" if rng.random() < .35 else None
+    mA = gen_mdp.gen_mdp(rng, nmax=5 if tier == "quick" else 7, amax=3, gamma=gamma, proper=True, min_states=2)
+    mB = perturb(rng, mA)
+    g = F(mA["gamma"])
+    vs = []
+    for mc in (mA, mB):
+        P, R, av, absf, ini = arrays(mc)
+        vs.append(exact_vstar(P, R, av, absf, g))
+    kind = rng.choice(["chain-const", "chain-maxexact", "chain-maxexact-slack"])
+    n = mA["n"]
+    if kind == "chain-const":
+        rmax = max([F(0)] + [F(r) for mc in (mA, mB) for r in mc["reward"].values()])
+        h = [F(0) if rmax == 0 else rmax / (1 - g)] * n
+    else:
+        c = F(0) if kind == "chain-maxexact" else rng.choice([F(1, 2), F(3)])
+        h = [max(vs[0][s], vs[1][s]) + c for s in range(n)]
+        if rng.random() < .5:
+            h = [(F(rng.choice([1, 5, 40])) if mA["absorbing"][s] else h[s]) for s in range(n)]
+    return {"chain": [mA, mB, mA], "mdp": mA, "heuristic": [str(up_double(x)) for x in h], "kind": kind,
+            "margin": rng.choice(MARGINS), "seed": rng.randint(0, 4 if tier == "quick" else 29),
+            "randomize": rng.random() < .5, "iterations": 4000, "max_log": 600 if tier == "quick" else 1500}
+
+
+def flatten(cases, impl):
+    """-> parallel lists (step case judged with ITS OWN mdp, step result, original case, step index)"""
+    fc, fr, fo, fs = [], [], [], []
+    for case, res in zip(cases, impl):
+        if "chain" in case and "error" not in res:
+            for k, (mc, r) in enumerate(zip(case["chain"], res["chain"])):
+                step = {x: y for x, y in case.items() if x != "chain"}
+                step["mdp"] = mc
+                fc.append(step); fr.append(r); fo.append(case); fs.append(k)
+        else:
+            fc.append(case); fr.append(res); fo.append(case); fs.append(None)
+    return fc, fr, fo, fs
 
 
 # ---------------------------------------------------------------------------------------------
@@ -400,19 +472,24 @@ def regression_cases():
 # ---------------------------------------------------------------------------------------------
 def run(ctx):
     tier = ctx.tier
-    ncases = 240 if tier == "quick" else 5000
+    ncases = 190 if tier == "quick" else 4000
+    nchains = 30 if tier == "quick" else 500
     if ctx.replay_case:
         cases = [ctx.replay_case["detail"]["case"]]
     else:
-        cases = [gen_case(ctx.rng, tier) for _ in range(ncases)] + regression_cases()
+        cases = [gen_case(ctx.rng, tier) for _ in range(ncases)] + regression_cases() \
+            + [gen_chain(ctx.rng, tier) for _ in range(nchains)]
     shards = min(ctx.jobs, 4 if tier == "quick" else 16)
     impl = ctx.impl("c04_impl.py", {"cases": cases}, shards=shards)["results"]
+    # chains (one planner object reused on several problems) are judged step by step, each step with
+    # its own MDP by the same certificate / replay / prediction / oracle; replay files keep the chain
+    cases, impl, origs, steps = flatten(cases, impl)
 
     terms, meta, preps = [], [], {}
     cnt = {k: 0 for k in ["cases", "cert_checks", "replays", "replay_ops", "predictions", "predicted_calls",
                           "nonmonotone", "nonmonotone_cert_ok", "nonmonotone_cert_rejects", "nonadmissible_skipped",
                           "returned_policy_differs_from_labelled_greedy", "untouched_labelled_states",
-                          "recomputed_greedy_differs_from_recorded_action", "regression_cases", "replay_skipped_long",
+                          "recomputed_greedy_differs_from_recorded_action", "regression_cases", "replay_skipped_long", "chain_steps", "chain_later_steps",
                           "absorbing_initial_mass", "zero_prob_initial_entry", "converged_attr_missing",
                           "absorbing_untouched_reads_heuristic", "prediction_near_margin", "log_overflow",
                           "trials_total", "checks_failed_then_updated"]}
@@ -426,7 +503,7 @@ def run(ctx):
     for i, (case, res) in enumerate(zip(cases, impl)):
         cnt["cases"] += 1
         if "error" in res:
-            ctx.violation("C04:impl-error:" + res["error"].split(":")[0], {"case": case, "error": res["error"], "trace": res.get("trace")}, found=True)
+            ctx.violation("C04:impl-error:" + res["error"].split(":")[0], {"case": origs[i], "error": res["error"], "trace": res.get("trace")}, found=True)
             continue
         p = prepare(case, res)
         preps[i] = p
@@ -446,10 +523,12 @@ def run(ctx):
         cnt["trials_total"] += res["trials"]
         cnt["nonmonotone"] += int(not p.mono_tol)
         cnt["regression_cases"] += int(case["kind"].startswith("regression"))
+        cnt["chain_steps"] += int(steps[i] is not None)
+        cnt["chain_later_steps"] += int(bool(steps[i]))
         cnt["recomputed_greedy_differs_from_recorded_action"] += int(any(
             p.live[s] and p.greedy[s] is not None and int(p.greedy[s]) != p.pi[s] for s in range(p.n)))
         cnt["log_overflow"] += int(res["ops_overflow"])
-        distinct.add(vlib.structural_hash([case["mdp"], case["heuristic"], case["margin"], case["seed"], case["randomize"]]))
+        distinct.add(vlib.structural_hash([case["mdp"], case["heuristic"], case["margin"], case["seed"], case["randomize"], steps[i]]))
         terms.append(chk_term(p, case, res))
         meta.append(("chk", i))
         mops = machine_ops(res["ops"])
@@ -478,7 +557,9 @@ def run(ctx):
 
     for (kind, i), v in zip(meta, vals):
         case, res, p = cases[i], impl[i], preps[i]
-        base = {"case": case}
+        base = {"case": origs[i]}
+        if steps[i] is not None:
+            base["chain_step"] = steps[i]
         if isinstance(v, vlib.CoqError):
             ctx.violation("C04:coq-evaluation-failed", dict(base, stage=kind, error=str(v)[:800]), found=False)
             continue
@@ -539,7 +620,9 @@ def run(ctx):
                 "zero-probability successors and initial entries, exact ties, absorbing states with non-zero self-loop rewards, "
                 "gamma in {1/2,3/4,7/8,9/10,19/20,1}) x heuristic family {constant bound, exact, exact+slack, exact with junk at "
                 "absorbing states, admissible non-monotone} (rounded UP to doubles) x margin {1e-1,1e-2,1e-4} x seed x "
-                "randomize_action_order; distinct = structural hash of (MDP, heuristic, margin, seed, option); non-trivial = at least one "
+                "randomize_action_order; plus CHAINS: one LRTDP object planning on A, a perturbed B with the same labels "
+                "(re-drawn probabilities/rewards, same successor sets), and A again, every step judged with its own MDP; "
+                "distinct = structural hash of (MDP, heuristic, margin, seed, option, chain step); non-trivial = at least one "
                 "non-absorbing state (all cases)" % (5 if tier == "quick" else 7),
         "samples": [{"case": cases[0], "impl": {k: impl[0].get(k) for k in ("V", "solved", "touched", "greedy", "initial_value", "trials", "ops")}}] if cases else [],
         "heuristic_kinds": kinds, "margins": margins, "input_features": feats, **cnt,
